@@ -39,6 +39,15 @@ def gen_cases(rng, tier):
             if rng.random() < 0.6:           # insulated centre pipe / enhanced outer pipe: different conductivities
                 c.update(kp_in=rng.choice([0.1, 0.2, 0.4]), kp_out=rng.choice([0.4, 0.6, 1.5]))
         cs.append(c)
+    # double U-tubes at low flow (laminar in the tubes): the equivalent pipe conductivity is then far below k_p'
+    for k in range(6 if tier == "quick" else 30):
+        ro = rng.choice([0.0133, 0.0167, 0.02108])
+        rb = rng.choice([0.07, 0.075, 0.09])
+        cs.append({"rb": rb, "H": rng.choice([60.0, 100.0, 200.0]), "kg": rng.choice([1.0, 2.0]), "ks": 2.0, "kp": rng.choice([0.4, 0.45]), "m": rng.uniform(0.02, 0.06),
+                   "fluid": rng.choice(["water", "water", "propyleneglycol"]), "conc": 0.0, "kind": rng.choice(["dp", "ds"]), "ro": ro, "ri": ro * 0.82,
+                   "s": min(0.02, 2 * (rb - 2 * ro) - 0.006)})
+        if cs[-1]["fluid"] != "water":
+            cs[-1]["conc"] = 20.0
     return cs
 
 
@@ -79,8 +88,14 @@ def oracle(chk, c, o):
     if abs(o["eq_R_fp"] / want_fp - 1) > 1e-4:          # the root solve on the pipe conductivity stops at about 1e-5 relative
         # the listed defect: the root lies outside the documented bracket [k_p'/100, 10 k_p'] and solve_root clamps to its end
         kpp = math.log(o["eq_r_out"] / o["eq_r_in"]) / (2 * math.pi * 2 * rp_i)
-        at_end = abs(o["eq_k_pipe"] / (10 * kpp) - 1) < 1e-9 or abs(o["eq_k_pipe"] / (kpp / 100) - 1) < 1e-9
-        chk.violation("to-single", c, {"R_fp_equivalent": o["eq_R_fp"], "R_conv_plus_R_pipe": want_fp, "equivalent_pipe_conductivity": o["eq_k_pipe"], "k_p_prime": kpp},
+        # where the root is: R_fp(k) = R_film + ln(r_out'/r_in') / (2 pi k) for the equivalent tube (film part: what the implementation reports)
+        r_film = o["eq_R_fp"] - o["eq_R_p"]
+        lnr = math.log(o["eq_r_out"] / o["eq_r_in"]) / (2 * math.pi)
+        k_star = lnr / (want_fp - r_film) if want_fp > r_film else None
+        outside = k_star is None or not (kpp / 100 <= k_star <= 10 * kpp)
+        at_end = outside and (abs(o["eq_k_pipe"] / (10 * kpp) - 1) < 1e-9 or abs(o["eq_k_pipe"] / (kpp / 100) - 1) < 1e-9)
+        chk.violation("to-single", c, {"R_fp_equivalent": o["eq_R_fp"], "R_conv_plus_R_pipe": want_fp, "equivalent_pipe_conductivity": o["eq_k_pipe"], "k_p_prime": kpp,
+                                           "conductivity_that_would_reproduce_it": k_star},
                       "the equivalent tube reproduces the combined convective-plus-pipe resistance", signature=KP_SIG if at_end else None)
     clamped_g = abs(o["eq_k_grout"] - 0.01) < 1e-12 or abs(o["eq_k_grout"] - 7.0) < 1e-12
     rel = abs(o["Rb_eq"] / o["Rb"] - 1)
